@@ -260,9 +260,26 @@ def run(ctx):
         s0 = gen.random_spec(rng, n, LABELS, clone_rate=0.4)
         s1 = mutate(rng, s0)
         one_pair(ctx, out, s0, s1)
+        if k % 4 == 0:
+            # whole (deep) branches present on one side only: against the empty tree, and a deep chain grafted below a random node
+            deep = gen.label_forest(gen.random_shape(rng, rng.randrange(4, 9), deep_bias=0.9), iter([rng.choice(LABELS[:3]) for _ in range(9)]))
+            deep = dedup_siblings(deep)
+            one_pair(ctx, out, [], deep)
+            one_pair(ctx, out, deep, [])
+            one_pair(ctx, out, s0, s0 + [d for d in deep if all(d[0] != x[0] for x in s0)])
         out.dist["random_pair"] += 1
         if k < 3:
             out.sample(dict(t0=s0, t1=s1))
+    return out
+
+
+def dedup_siblings(spec):
+    out, seen = [], set()
+    for lab, kids in spec:
+        if lab in seen:
+            continue
+        seen.add(lab)
+        out.append((lab, dedup_siblings(kids)))
     return out
 
 
